@@ -70,6 +70,11 @@ def run(chk):
         v2 = lit(chk.rng.choice(evalgen.INTS[:5] + ["q"]))
         if v1[0] != "lit" and v1[0] != "collect":
             v1 = lit(7)
+        if len(p) >= 2 and chk.rng.random() < 0.2:
+            pre = p[:chk.rng.randrange(1, len(p))]
+            npre = norm_path(d, pre)
+            if npre is not None and evalcheck.jget(d, npre)[1]:
+                v1 = path_expr(pre)   # the new value is an existing container that holds the target (.a.b = .a)
         laws.append((d, p, v1, v2))
     reqs = []
     for d, p, v1, v2 in laws:
